@@ -345,6 +345,13 @@ func (c *ColLowCardinality[T]) Prepare() error {
 		c.keys[i] = idx
 	}
 
+	if v, ok := c.index.(Preparable); ok {
+		// Dictionary column can require preparation too, e.g. ColEnum.
+		if err := v.Prepare(); err != nil {
+			return errors.Wrap(err, "prepare index")
+		}
+	}
+
 	// Select minimum possible size for key.
 	if n := last; n < math.MaxUint8 {
 		c.key = KeyUInt8
